@@ -30,7 +30,8 @@ MANIFEST = {
     'technique': ('effect analysis: table of ambient-entropy sources, control dependence on '
                   '`<seed> is None`, forward taint from entropy values to RNG constructors / seed '
                   'keywords; unused-parameter and keyword-plumbing checks for seed/rng arguments'
-                  '; process-wide state rule (module-level containers mutated by functions, memoising decorators); shared C13.R3/R5/R8'),
+                  '; process-wide state rule (module-level containers mutated by functions, memoising decorators); shared C13.R3/R5/R8'
+                  '; seed-folding lint (many-to-one arithmetic on seed parameters)'),
     'level_text': (
         'Static: in the seeded designers and the benchmark runner no wall-clock, global-RNG, '
         'unseeded-RNG or per-process-salted value can reach a random stream unless the caller '
